@@ -74,6 +74,9 @@ func RunModel(hts []*HistTrace) ([][]ModelStep, error) {
 	for _, ht := range hts {
 		fmt.Fprintf(&in, "H %d\n", ht.H.ID)
 		for _, st := range ht.Steps {
+			// the implementation's observables first, then the operation
+			in.WriteString("r " + st.R + "\n")
+			in.WriteString("d " + st.D + "\n")
 			for _, l := range st.Input {
 				in.WriteString(l)
 				in.WriteString("\n")
@@ -154,18 +157,10 @@ func Compare(ht *HistTrace, ms []ModelStep) Verdict {
 	if len(ms) != len(ht.Steps) {
 		return Verdict{Kind: KindHarness, Detail: fmt.Sprintf("model produced %d steps for %d", len(ms), len(ht.Steps))}
 	}
+	// 1. the implementation against the specification and the structural rules
+	//    (both are evaluated on the implementation's own observables)
 	for i, st := range ht.Steps {
 		m := ms[i]
-		if st.R != m.R {
-			v.Kind, v.Step = KindImplRes, i
-			v.Detail = fmt.Sprintf("step %d %v\n  real : %s\n  model: %s", i, st.Input, st.R, m.R)
-			return v
-		}
-		if st.D != m.D {
-			v.Kind, v.Step = KindImplDump, i
-			v.Detail = fmt.Sprintf("step %d %v\n  real : %s\n  model: %s", i, st.Input, st.D, m.D)
-			return v
-		}
 		if m.N != "ok" {
 			v.Kind, v.Step = KindAudit, i
 			v.Detail = fmt.Sprintf("step %d %v\n  audit failed: %s\n  state: %s", i, st.Input, m.N, st.D)
@@ -179,7 +174,21 @@ func Compare(ht *HistTrace, ms []ModelStep) Verdict {
 			v.Excl[strings.Fields(m.V)[1]]++
 		default:
 			v.Kind, v.Step = KindSpec, i
-			v.Detail = fmt.Sprintf("step %d %v\n  %s", i, st.Input, m.V)
+			v.Detail = fmt.Sprintf("step %d %v\n  real R: %s\n  %s", i, st.Input, st.R, m.V)
+			return v
+		}
+	}
+	// 2. the implementation against the faithful model (correspondence)
+	for i, st := range ht.Steps {
+		m := ms[i]
+		if st.R != m.R {
+			v.Kind, v.Step = KindImplRes, i
+			v.Detail = fmt.Sprintf("step %d %v\n  real : %s\n  model: %s", i, st.Input, st.R, m.R)
+			return v
+		}
+		if st.D != m.D {
+			v.Kind, v.Step = KindImplDump, i
+			v.Detail = fmt.Sprintf("step %d %v\n  real : %s\n  model: %s", i, st.Input, st.D, m.D)
 			return v
 		}
 	}
